@@ -3,7 +3,7 @@
    BV.Configure.setup_txdata / pushonly_violation (Instance::setup_environment), BV.Session (StepScript(InterpreterEnv&)).
    The hash functions are parameters of the statements (any functions): the theorems are about which hashes are compared with which
    committed bytes, and the correspondence runs them with the Gallina SHA-256 / RIPEMD-160 of BV.Hashes. *)
-From BV Require Import Base Script Interp Session Tx TxCli Sighash Configure ConfigureProofs VerifySpec VerifyProofs TapTool TceProofs.
+From BV Require Import Base Script Interp Session Tx TxCli Sighash Configure ConfigureProofs VerifySpec VerifyProofs TapTool TceProofs PushOnlyProofs.
 From BV.Gen Require Import Consts Sites.
 Local Open Scope Z_scope.
 
@@ -150,6 +150,19 @@ Theorem C03_tapscript_session_is_commitment_then_one_evaluation : forall low_s t
   else exists v1, Session.dbg_continue low_s tap_tweak_ok sha256 f c v0 = (v1, SErr) /\ i_e v1 = i_e v0.
 Proof. exact tapscript_session. Qed.
 
+(* BIP16 / SIGPUSHONLY at session set-up: the scriptSig is refused exactly when a scriptPubKey follows, the scriptSig is not made of push
+   operations only (it decodes completely and no opcode is above OP_16: OP_0, data pushes, OP_1NEGATE, OP_1 .. OP_16), and either SIGPUSHONLY
+   is set or the scriptPubKey is pay-to-script-hash under the P2SH flag *)
+Theorem C03_push_only_rule : forall flags script succ,
+  pushonly_violation flags script succ = true <->
+  succ <> [] /\ ~ all_pushes script /\
+  (has_flag flags SCRIPT_VERIFY_SIGPUSHONLY = true \/ (has_flag flags SCRIPT_VERIFY_P2SH = true /\ is_p2sh_script succ = true)).
+Proof. exact pushonly_violation_iff. Qed.
+Theorem C03_push_only_is_all_pushes : forall s, is_push_only s = true <-> all_pushes s.
+Proof. exact is_push_only_iff. Qed.
+Example C03_op16_is_a_push : is_push_only [96; 2; 96; 135] = true /\ is_push_only [97] = false.     (* OP_16 <OP_16 OP_EQUAL> ; OP_NOP *)
+Proof. split; vm_compute; reflexivity. Qed.
+
 (* non-vacuity: the start state of every session built by setup_environment for a scriptSig that is not itself P2SH-shaped meets the premises *)
 Example C03_session_premises : forall c script stack succ ed, script <> [] ->
   i_p2sh (setup_env c script stack succ ed None) = false ->
@@ -179,6 +192,8 @@ Print Assumptions C03_witness_session_never_p2sh.
 Print Assumptions C03_witness_script_session_is_one_evaluation.
 Print Assumptions C03_tapscript_session_is_commitment_then_one_evaluation.
 Print Assumptions C03_control_block_size_bounds.
+Print Assumptions C03_push_only_rule.
+Print Assumptions C03_push_only_is_all_pushes.
 Print Assumptions C03_wrong_selection_refused.
 Print Assumptions C03_selection_out_of_range_refused.
 Print Assumptions C03_auto_selection_is_first.
